@@ -392,26 +392,27 @@ def _train_op(rep: Report, plan: dict[str, Any], ref: R.RefKFAC,
             _traffic_check(rep, plan, rec, D, asg, r, factor_step, inv_step,
                            key)
     # ---------------- cross-rank equality (C02)
+    # compared per registered layer (combined weight|bias gradient, error
+    # relative to the layer's norm); gradients K-FAC must not touch are
+    # covered by C10 and identical by construction of the workload.
     if not vac:
-        base = by_rank[r0].get('grads')
+        base = by_rank[r0].get('G_after')
         for r in sorted(by_rank):
-            g = by_rank[r].get('grads')
+            g = by_rank[r].get('G_after')
             if g is None or base is None or r == r0:
                 continue
-            for pn in base:
-                if (base[pn] is None) != (g[pn] is None):
-                    rep.bad('C02.cross_rank', rank=r, param=pn, key=key)
-                elif base[pn] is not None:
-                    e = R.rel_err(g[pn], base[pn])
-                    rep.stats['cross_rank_comparisons'] += 1
-                    if e > dbound:
-                        rep.bad('C02.cross_rank', rank=r, param=pn, err=e,
-                                bound=dbound, key=key)
+            for n in base:
+                e = R.rel_err(g[n], base[n])
+                rep.stats['cross_rank_comparisons'] += 1
+                if e > dbound:
+                    rep.bad('C02.cross_rank', rank=r, layer=n, err=e,
+                            bound=dbound, key=key)
     rep.per_op.append({
         'key': key, 'eff_pos': eff_pos, 'it': op['it'],
-        'grads': by_rank[r0].get('grads'), 'cond': info['cond'],
+        'grads': by_rank[r0].get('G_after'), 'cond': info['cond'],
         'vacuous': vac, 'agree_unint': agree, 'step': s,
         'after_restart': unint is not None,
+        'weights': by_rank[r0].get('weights_after'),
     })
 
 
